@@ -44,6 +44,15 @@ impl<R: Read> Reader<R> {
 //@@ safety C05
 //@@ ret r
 //@@ header-from specs/reader/next.spec
+//@@ before "let ch = ch?;"
+                proof {
+                    reveal(has_fault);
+                    if ch is Err {
+                        let k = if old(self).cur() is Some { 1int } else { 0int };
+                        assert(old(self).pending()[k] == old(self).rest()[0]);
+                        assert(old(self).pending()[k] is None);
+                    }
+                }
 //@@ endfn
 
 //@@ fn reader.peek = src/reader.rs :: impl<R: Read> Reader<R> :: fn peek
@@ -64,6 +73,8 @@ impl<R: Read> Reader<R> {
             ws_run(old(self).pending()) == (old(self).pending().len() - self.pending().len()) + ws_run(self.pending()),
             forall|i: int| 0 <= i < old(self).pending().len() - self.pending().len() ==> (#[trigger] old(self).pending()[i]) is Some,
         decreases self.mu(),
+//@@ loop-start 1
+            proof { reveal(has_fault); }
 //@@ endfn
 
 //@@ fn reader.read_digits = src/reader.rs :: impl<R: Read> Reader<R> :: fn read_digits
@@ -79,6 +90,8 @@ impl<R: Read> Reader<R> {
             forall|i: int| 0 <= i < old(self).pending().len() - self.pending().len() ==> (#[trigger] old(self).pending()[i]) is Some,
             digits@ =~= old(digits)@.add(unwrap_all(old(self).pending().subrange(0, old(self).pending().len() - self.pending().len()))),
         decreases self.mu(),
+//@@ loop-start 1
+            proof { reveal(has_fault); }
 //@@ endfn
 
 //@@ fn reader.where_am_i = src/reader.rs :: impl<R: Read> Reader<R> :: fn where_am_i
